@@ -12,8 +12,10 @@ Written from /repo (as it is, including D3):
   `detail::SetCallback<…FromShared…>` + `Core::Impl` (inline: run now; `Call`: `caller.IncRef()`, Submit, later
   `Call()` + `caller->DecRef()`), `Connect(const SharedFutureBase&, Promise&&)` (Share / Split targets:
   `ResultCore::Impl`: `ref = caller.GetRef(); ref >= 3 ? copy : move; if (ref == 1) caller.DecRef()`),
-  `SharedCore::Retire` (When*: `GetRef() == 1 ? move : copy; DecRef()`), `AtomicCounter::{Add, SubEqual}`,
-  `MakeSharedContract` (`kSharedRefWithFuture = 4` = 3 references of the promise + 1 of the future).
+  `SharedCore::Retire` (When*: `GetRef() == 1 ? move : copy; DecRef()`), `AtomicCounter::{Add, SubEqual, Get}`
+  (`fetch_add` relaxed, `fetch_sub` release + acquire fence, `GetRef()` = load — acquire since the D9 fix; the order
+  does not matter at this level, it is C04's matter), `MakeSharedContract` (`kSharedRefWithFuture = 4` = 3 references
+  of the promise + 1 of the future).
 
 Granularity: one step per atomic operation on the word (`load`, each `compare_exchange_weak` attempt incl. the
 spurious failure, `exchange`) and on the reference counter (`fetch_add`, `fetch_sub`, `load`), and one per
